@@ -85,6 +85,9 @@ func NewDataStreamProcessor(channelIndex int, broker *TriggerBroker, NPresamples
 	dsp.projectors = &mat.Dense{}       // dsp.projectors is set to zero value
 	dsp.basis = &mat.Dense{}            // dsp.basis is set to zero value
 	dsp.EMTState.reset()                // set up edgeMulti in known state
+	// second copy of the record lengths: it sizes the data kept between blocks (NToKeepOnTrim)
+	dsp.EMTState.nsamp = int32(NSamples)
+	dsp.EMTState.npre = int32(NPresamples)
 	return &dsp
 }
 
